@@ -162,6 +162,11 @@ def clock_value(t):
 # generators
 # ----------------------------------------------------------------------------------------------------------------
 def gen_int(rng, mode, j, size):
+    v = _gen_int(rng, mode, j, size)
+    return ((v + 2 ** 63) % 2 ** 64) - 2 ** 63          # an int64 column cannot hold more
+
+
+def _gen_int(rng, mode, j, size):
     if mode == "small":
         return rng.randint(0, 60)
     if mode == "seq":
@@ -818,9 +823,9 @@ def streams(tier):
     imp = "From Viv Require Import Common IndexMap."
     return [
         Stream(name="hist", imports=imp, check="check_c03", gen=gen_hist, run=run_hist, corpus=corpus_hist,
-               n_quick=120, n_thorough=2400),
+               n_quick=120, n_thorough=2000),
         Stream(name="bad", imports=imp, check="check_c03", gen=gen_bad, run=run_bad, corpus=corpus_bad,
-               n_quick=60, n_thorough=800),
+               n_quick=60, n_thorough=600),
         Stream(name="conv", imports=imp, check="check_conv", gen=gen_conv, run=run_conv, corpus=corpus_conv,
                n_quick=600, n_thorough=3000),
         Stream(name="hash", imports=imp, check="check_hash", gen=gen_hashcase, run=run_hashcase,
